@@ -61,16 +61,15 @@ type Config struct {
 	// Bare: no double at all - the package under test is handed the repository's own Curve and Key objects, the way an
 	// application does. Everything the double injects is off (it is a fault-free configuration), but code in slip10
 	// that recognises the concrete key types (a type switch "for speed") is only reached this way.
-	Bare bool `json:"bare,omitempty"`
-	Warp           bool   `json:"warp,omitempty"`         // the pluggable curve maps candidates to scalars at the edges of the valid range (elliptic curves only)
-	WrapInvalid    bool   `json:"wrap_invalid,omitempty"` // retryable faults are returned as an error wrapping ErrInvalidKey
-	Ops            []Op   `json:"ops"`
+	Bare        bool `json:"bare,omitempty"`
+	Warp        bool `json:"warp,omitempty"`         // the pluggable curve maps candidates to scalars at the edges of the valid range (elliptic curves only)
+	WrapInvalid bool `json:"wrap_invalid,omitempty"` // retryable faults are returned as an error wrapping ErrInvalidKey
+	Ops         []Op `json:"ops"`
 }
 
 var errInjected = errors.New("injected permanent curve error")
 
 type stallPanic struct{ why string }
-
 
 // world is the state of the fault-injecting collaborator.
 type world struct {
@@ -89,18 +88,18 @@ type world struct {
 	extraSteps int
 
 	// the overlapping derivation of the current operation (see Op.OverlapAt)
-	ovArmed  bool
-	ovAt     int
-	ovCount  int
-	ovSrc    *slip10.ExtendedKey
-	ovIndex  uint32
-	ovRan    bool
-	ovKey    *slip10.ExtendedKey
-	ovErr    error
-	ovPanic  string
-	ovCalls  int
-	ovPublic bool
-	specCalls  int // steps of the specification's retry chain for the current operation (known before the real call)
+	ovArmed   bool
+	ovAt      int
+	ovCount   int
+	ovSrc     *slip10.ExtendedKey
+	ovIndex   uint32
+	ovRan     bool
+	ovKey     *slip10.ExtendedKey
+	ovErr     error
+	ovPanic   string
+	ovCalls   int
+	ovPublic  bool
+	specCalls int // steps of the specification's retry chain for the current operation (known before the real call)
 }
 
 func (w *world) reject(cand []byte) bool {
@@ -778,10 +777,20 @@ func (r *runState) step(i int, op *Op, fc slip10.Curve, mc *ref.SlipCurve) {
 		}
 	}
 	for j, h := range r.handles {
+		useSpare(h.real.Key.Bytes())
+		useSpare(h.real.ChainCode)
 		if !bytes.Equal(h.real.Key.Bytes(), h.model.Key) || !bytes.Equal(h.real.ChainCode, h.model.ChainCode) {
 			r.violate("model-divergence:receiver-mutated", fmt.Sprintf("%s: extended key #%d changed (now %s, specification %s)", where, j, describeReal(h.real), describeModel(h.model)), sig)
 			return
 		}
+	}
+}
+
+// useSpare overwrites the spare capacity behind b, as an append within capacity would.
+func useSpare(b []byte) {
+	sp := b[len(b):cap(b)]
+	for i := range sp {
+		sp[i] = ^sp[i] + byte(3*i+1)
 	}
 }
 
@@ -827,6 +836,15 @@ func compare(real *slip10.ExtendedKey, m *ref.XKey) string { return compareMode(
 
 // compareMode with shallow set looks at the exported data only (no accessor that could compute and cache something).
 func compareMode(real *slip10.ExtendedKey, m *ref.XKey, shallow bool) string {
+	// Every slice the package hands out is the caller's to append to: what lies between its length and its capacity is
+	// nobody else's memory (a caller building seed||A does append(key.Bytes(), pub...)). The caller of this simulation
+	// writes into that spare capacity before it looks at anything, every time.
+	useSpare(real.Key.Bytes())
+	useSpare(real.ChainCode)
+	if !shallow {
+		useSpare(real.Key.Public().Bytes())
+		useSpare(real.Fingerprint())
+	}
 	switch {
 	case real.IsPrivate() != m.Private:
 		return "private-flag"
